@@ -27,6 +27,7 @@ for id in $IDS; do
     echo "existing suite with the change: $(grep -E '^test result' /tmp/confirm/$id.suite.log | tr '\n' ';')"
     mkdir -p fast-tlsh/tests; cp /verif/seeded/$id/seed_demo.rs fast-tlsh/tests/seed_demo.rs
     f="${FEAT[$id]:-}"
+    if grep -q "^DEMO_FLAGS:" /verif/seeded/$id/agent_meta.txt 2>/dev/null; then f="$(grep "^DEMO_FLAGS:" /verif/seeded/$id/agent_meta.txt | head -1 | sed "s/^DEMO_FLAGS://")"; fi
     echo "demo command: cargo test --offline -p fast-tlsh --test seed_demo $f"
     cargo test --offline -p fast-tlsh --test seed_demo $f > /tmp/confirm/$id.demo_with.log 2>&1
     echo "demo WITH the change: exit=$? $(grep -E '^test result' /tmp/confirm/$id.demo_with.log | tr '\n' ';')"
